@@ -19,7 +19,7 @@ META = dict(
     module="scenarios.c11_loans", level="model_checking",
     bounds=dict(
         quick="interest: one MarginLoans loan with symbolic principal, minimum interest, initial balance and elapsed "
-              "time (whole seconds up to 10 years), interest 7 % per {1 day, 365 days, no period}, interest symbol equal "
+              "time (whole seconds up to 10 years; one job with microsecond resolution), interest 7 % per {1 day, 365 days, no period}, interest symbol equal "
               "to / different from the borrowed symbol (price from {100, 31234.56}); query, repay, repay again, repay "
               "unknown id; auto-repay: 2 open loans in the symbol an auto-repay limit/market order acquires, symbolic "
               "principals and balances, one bar",
@@ -230,9 +230,9 @@ def jobs(tier):
             js.append(Job("auto-repay %s 2 loans min_interest=%s" % (kind, mi), "auto_repay",
                           dict(nloans=2, kind=kind, min_interest=mi), validate_every=30, sample_every=60,
                           max_paths=200000, split=64))
+    js.append(Job("interest sub-second elapsed time", "interest", dict(same_symbol=True, period_days=1, sub_second=True),
+                  validate_every=5, sample_every=10, prove_timeout=120000))
     if tier == "thorough":
-        js.append(Job("interest sub-second", "interest", dict(same_symbol=True, period_days=365, sub_second=True),
-                      validate_every=5, sample_every=10, prove_timeout=120000))
         js.append(Job("auto-repay market 3 loans", "auto_repay", dict(nloans=3, kind="market"), validate_every=100,
                       sample_every=200, max_paths=2000000, split=200))
     return js
